@@ -201,11 +201,18 @@ func TestC14(t *testing.T) {
 		lc := &LimitCase{Stream: *c}
 		// limits: the geometric grid plus values around the need measured on
 		// an unlimited consumer
-		lc.Limits = append(lc.Limits, limitGrid...)
+		if fuzzNoExpensive {
+			// (one execution under the native fuzzer has 10 s: half the grid)
+			for i := 0; i < len(limitGrid); i += 2 {
+				lc.Limits = append(lc.Limits, limitGrid[i])
+			}
+		} else {
+			lc.Limits = append(lc.Limits, limitGrid...)
+		}
 		probe, _, _ := measureNeed(c)
-		if fuzzNoExpensive && len(probe) > 2 {
+		if fuzzNoExpensive && len(probe) > 1 {
 			// (under the native fuzzer one execution has 10 s: fewer limits)
-			probe = probe[len(probe)-2:]
+			probe = probe[len(probe)-1:]
 		}
 		for _, n := range probe {
 			for _, d := range []int64{-64, -1, 0, 1, 64} {
